@@ -126,7 +126,7 @@ Definition ks_energy_floor : Z * Z := %s.
 BACKBONE = {"C", "CA", "N", "O", "HA", "H"}
 PROTEIN = {"GLY", "ALA", "SER", "THR", "LYS", "ASP", "ASN", "PRO", "VAL", "LEU", "ILE", "MET", "PHE", "TYR", "TRP",
            "CYS", "GLU", "GLN", "ARG", "HIS", "ACE", "NME", "NLE"}
-WATER = {"HOH", "WAT", "SOL", "H2O", "TIP3"}
+WATER = {"H2O", "HHO", "HOH", "OH2", "OHH", "SOL", "TIP", "TIP2", "TIP3", "TIP4", "WAT"}
 SIDE = {
     "GLY": ([], []),
     "ALA": ([("CB", "C")], [("CA", "CB")]),
@@ -291,17 +291,59 @@ def gen_calls(rng, tier):
         if rng.random() < 0.6:
             c["angle_cutoff"] = rng.choice([84, 100, 120, 135, 156, 90, 110.5])
         calls.append(c)
-    for _ in range(2):
+    for _ in range(1 if tier == "quick" else 2):
         calls.append({"fn": "wernet_nilsson", "exclude_water": rng.random() < 0.6, "periodic": rng.random() < 0.7,
                       "sidechain_only": rng.random() < 0.25})
     calls.append({"fn": "kabsch_sander"})
     return calls
 
 
+REAL_FILES = {"1vii.pdb": 36, "bpti.pdb": 58, "2EQQ.pdb": 28, "1vii_sustiva_water.pdb": 60, "aaqaa-wat.pdb": 40,
+              "GG-tip4pew.pdb": 20}
+KNOWN_NONPROTEIN = {"EFZ", "LIG", "NA", "CL", "NH2"} | WATER
+
+
+def real_systems(ctx, n_sys):
+    """windows of real structures with hydrogens (topology with mdtraj's standard bonds), jittered frames"""
+    rng = ctx.rng
+    reqs = []
+    for _ in range(n_sys):
+        f = rng.choice(sorted(REAL_FILES))
+        N = REAL_FILES[f]
+        w = rng.randint(2, 12)
+        lo = rng.randrange(0, max(1, N - w))
+        reqs.append({"file": f, "frame": rng.randrange(20), "residues": [lo, lo + w]})
+    dumps = ctx.run_impl("hbond_impl.py", {"repo": common.REPO, "G": G, "dump": reqs})["dump"]
+    out = []
+    for rq, d in zip(reqs, dumps):
+        if d is None or any(r["name"] not in PROTEIN and r["name"] not in KNOWN_NONPROTEIN for r in d["residues"]):
+            continue
+        n = len(d["xyz"])
+        if n > 260 or not d["bonds"]:
+            continue
+        s = {"residues": d["residues"], "bonds": d["bonds"], "parent": {}, "n_atoms": n}
+        F = rng.randint(1, 4)
+        frames = []
+        for f in range(F):
+            jit = rng.choice([0.0, 0.005, 0.02, 0.05])
+            frames.append({"xyz": [[c + int(round(rng.gauss(0, jit) * G)) for c in v] for v in d["xyz"]], "box": None})
+        if rng.random() < 0.3:
+            L = [int(rng.choice([3.0, 4.0]) * G)] * 3
+            for fr in frames:
+                fr["box"] = list(L)
+        s["frames"] = frames
+        s["oob"] = [rng.randint(-2 * G, 2 * G) for _ in range(3)]
+        s["calls"] = gen_calls(rng, ctx.tier)
+        s["stream"] = "real"
+        s["source"] = rq
+        out.append(s)
+    return out
+
+
 def build_systems(ctx, n_sys):
     rng = ctx.rng
-    out = []
-    for k in range(n_sys):
+    out = real_systems(ctx, max(2, n_sys // 4))
+    for k in range(n_sys - len(out)):
         s = make_system(rng)
         F = rng.randint(1, 6)
         s["frames"] = place(rng, s, F, periodic=rng.random() < 0.5)
@@ -327,8 +369,13 @@ def cq(fr):
     return "(%s, %s)" % (cz(fr.numerator), cz(fr.denominator))
 
 
+def zz(n):
+    n = int(n)
+    return "%d" % n if n >= 0 else "(%d)" % n
+
+
 def cvec(v):
-    return "(%s, %s, %s)" % (cz(v[0]), cz(v[1]), cz(v[2]))
+    return "(%s, %s, %s)" % (zz(v[0]), zz(v[1]), zz(v[2]))
 
 
 def coq_topo(sysd):
@@ -372,13 +419,67 @@ def needs_prev_incomplete(sysd):
     return False
 
 
-def run_systems(ctx, systems, batch=20):
+def coq_files(ctx, files, par=4):
+    """files: list of (name, text) each ending in Eval lines that print ("TAG"%string, n, [bad indices]).
+    Runs up to `par` coqc in parallel; returns {name: {tag: set(bad)}} or None after reporting a break."""
+    import subprocess
+    out = {}
+    todo = list(files)
+    running = []
+    errors = []
+
+    def reap(pr, name):
+        o = pr.communicate()[0]
+        if pr.returncode != 0:
+            errors.append(o[-3000:])
+            return
+        res = {}
+        for m in re.finditer(r'\("([A-Z_]+)"%string,\s*(\d+)(?:%nat)?,\s*(\[[^\]]*\]|nil)\s*[,)]', o, re.S):
+            res[m.group(1)] = {int(x) for x in re.findall(r"\d+", m.group(3))}
+            res["#" + m.group(1)] = int(m.group(2))
+        out[name] = res
+    while todo or running:
+        while todo and len(running) < par:
+            name, text = todo.pop(0)
+            path = os.path.join(ctx.tmp, name + ".v")
+            with open(path, "w") as fh:
+                fh.write(text)
+            pr = subprocess.Popen(["timeout", "900", "coqc", "-Q", common.COQ, "MD", path], cwd=ctx.tmp,
+                                  stdout=subprocess.PIPE, stderr=subprocess.STDOUT, text=True)
+            running.append((pr, name))
+        pr, name = running.pop(0)
+        reap(pr, name)
+    if errors:
+        ctx.break_("correspondence:coqc-evaluation", "\n".join(errors))
+        return None
+    return out
+
+
+def cases_block(tag, ty_in, ty_out, fn, chk, cnt, cases):
+    """one evaluation of the model per case; prints the mismatching indices and the number of guard-band exclusions"""
+    lines = ["Definition cases_%s : list (nat * (%s) * (%s)) := [" % (tag, ty_in, ty_out),
+             ";\n".join("(%d%%nat, %s, %s)" % (j, a, b) for j, (a, b) in enumerate(cases)), "].",
+             "Eval vm_compute in (let rs := map (fun c => (fst (fst c), %s (snd (fst c)), snd c)) cases_%s in" % (fn, tag),
+             '  (("%s"%%string, List.length rs, map (fun r => fst (fst r)) (filter (fun r => negb (%s (snd (fst r)) (snd r))) rs)),'
+             % (tag, chk),
+             '   ("UNC%s"%%string, fold_left (fun acc r => (acc + %s (snd (fst r)))%%nat) rs 0%%nat, @nil nat))).' % (tag, cnt)]
+    return "\n".join(lines)
+
+
+HEADER = """From Coq Require Import ZArith List String Bool Ascii.
+Import ListNotations.
+Require Import MD.Gen.HbondTables MD.Hbond.Model MD.Hbond.KsModel MD.Hbond.Run.
+Open Scope nat_scope.
+Open Scope Z_scope.
+"""
+
+
+def run_systems(ctx, systems, batch=4):
     payload = {"repo": common.REPO, "tmp": ctx.tmp, "shim": SHIM, "G": G,
                "systems": [{k: s[k] for k in ("residues", "bonds", "frames", "oob", "calls")} for s in systems]}
     res = ctx.run_impl("hbond_impl.py", payload)["systems"]
-    ks_votes = {"h_cur": [], "h_fix": []}      # indices of (system, frame) each variant fails on
     ks_jobs_meta = []
-    unc_total = 0
+    files, index = [], {}
     for b0 in range(0, len(systems), batch):
         chunk = list(range(b0, min(len(systems), b0 + batch)))
         prelude = []
@@ -386,10 +487,10 @@ def run_systems(ctx, systems, batch=20):
             prelude.append("Definition topo_%d : topo := %s." % (si, coq_topo(systems[si])))
             prelude.append("Definition frames_%d : list frame := %s." % (si, coq_frames(systems[si])))
             prelude.append("Definition res_%d : list residue := %s." % (si, coq_residues(systems[si])))
-        prelude = "Local Open Scope Z_scope.\n" + "\n".join(prelude)
         bh, wn, ks = [], [], []
         for si in chunk:
             s = systems[si]
+            differ = needs_prev_incomplete(s)
             for ci, (c, r) in enumerate(zip(s["calls"], res[si])):
                 key = {"sys": si, "call": ci}
                 if c["fn"] == "baker_hubbard":
@@ -408,7 +509,7 @@ def run_systems(ctx, systems, batch=20):
                     wn.append((key, inp, exp, r))
                 else:
                     if "frames" not in r:
-                        ks.append((dict(key, frame=0, variant="h_cur"), None, None, r))
+                        ks.append((dict(key, frame=0, variant="both"), None, None, r))
                         continue
                     n = len(s["residues"])
                     for fi, fr in enumerate(r["frames"]):
@@ -418,58 +519,71 @@ def run_systems(ctx, systems, batch=20):
                         exp = clist([clist(["(%s, %s)" % (cnat(a), cz(int(round(Fraction(e) * (1 << 32))))) for a, e in sorted(row)])
                                      for row in rows])
                         oob = s["frames"][fi - 1]["xyz"][-1] if fi > 0 else s["oob"]
-                        for hv in (("h_cur", "h_fix") if needs_prev_incomplete(s) else ("h_cur",)):
+                        for hv in (("h_cur", "h_fix") if differ else ("h_cur",)):
                             inp = "(%s, %s, %s, %s, %s, res_%d, f_xyz (nth %d frames_%d (mkFrame [] None)), %s)" % (
                                 cz(G), hv, cz(int(KS_GE * SC)), cq(KS_GCA), cz(int(KS_TOL * SC)), si, fi, si, cvec(oob))
-                            ks.append((dict(key, frame=fi, variant=hv if needs_prev_incomplete(s) else "both",
-                                            shape=fr["shape"], n=n), inp, exp, r))
-        req = ["MD.Hbond.Model", "MD.Hbond.KsModel", "MD.Hbond.Run"]
-        # --- baker_hubbard / wernet_nilsson
-        for name, jobs, ty_in, ty_out, fn, chk in (
-                ("baker_hubbard", bh, BH_TY, "result (list triplet)", "run_bh", "check_bh"),
-                ("wernet_nilsson", wn, WN_TY, "result (list (list triplet))", "run_wn", "check_wn")):
-            good = [(k, i, e, r) for k, i, e, r in jobs if e is not None]
+                            ks.append((dict(key, frame=fi, variant=hv if differ else "both", shape=fr["shape"], n=n), inp, exp, r))
+        name = "c14_%d" % b0
+        text = HEADER + "\n".join(prelude) + "\n"
+        blocks = {}
+        for tag, jobs, ty_in, ty_out, fn, chk, cnt in (
+                ("BH", bh, BH_TY, "result (list triplet)", "run_bh", "check_bh", "bh_unc"),
+                ("WN", wn, WN_TY, "result (list (list triplet))", "run_wn", "check_wn", "wn_unc"),
+                ("KS", ks, KS_TY, "list (list (nat * Z))", "run_ks_t", "check_ks_t", "ks_unc")):
+            good = [(k, i, e, r) for k, i, e, r in jobs if i is not None and e is not None]
+            blocks[tag] = (jobs, good)
+            if good:
+                text += cases_block(tag, ty_in, ty_out, fn, chk, cnt, [(i, e) for _k, i, e, _r in good]) + "\n"
+        files.append((name, text))
+        index[name] = blocks
+    outs = coq_files(ctx, files)
+    if outs is None:
+        return
+    ce = ctx.notes.setdefault("coverage_extra", {})
+    for name in outs:
+        for k, lab in (("#UNCBH", "excluded_bh_triplets_in_guard_band"), ("#UNCWN", "excluded_wn_triplet_frames_in_guard_band"),
+                       ("#UNCKS", "excluded_ks_donor_frames_ambiguous")):
+            ce[lab] = ce.get(lab, 0) + outs[name].get(k, 0)
+    for name, blocks in index.items():
+        for tag, fname in (("BH", "baker_hubbard"), ("WN", "wernet_nilsson")):
+            jobs, good = blocks[tag]
             for k, i, e, r in jobs:
                 if e is None:
                     s = systems[k["sys"]]
-                    ctx.fail("md.%s raised %s" % (name, r.get("err")), case_of(s, k["call"]), observed=r,
-                             expected="a list of triplets", tags={"fn": name, "kind": "raises"})
-            if not good:
-                continue
-            bad, errs = ctx.coq_mismatches(req, (ty_in, ty_out), chk, fn, [(i, e) for _k, i, e, _r in good],
-                                           shard=12, prelude=prelude)
-            if errs:
-                ctx.break_("correspondence:coqc-evaluation", "\n".join(errs))
+                    ctx.fail("md.%s raised %s" % (fname, r.get("err")), case_of(s, k["call"]), observed=r,
+                             expected="a list of triplets", tags={"fn": fname, "kind": "raises"})
+            if good and tag not in outs[name]:
+                ctx.break_("correspondence:coqc-evaluation", "no %s result in %s" % (tag, name))
                 return
+            bad = outs[name].get(tag, set())
             for j, (k, i, e, r) in enumerate(good):
                 s = systems[k["sys"]]
                 c = s["calls"][k["call"]]
-                nb = len(r.get("triplets", [])) if name == "baker_hubbard" else sum(len(x) for x in r.get("frames", []))
+                nb = len(r.get("triplets", [])) if tag == "BH" else sum(len(x) for x in r.get("frames", []))
                 ctx.count({"sys": digest_sys(s), "call": c}, nontrivial=nb > 0,
-                          bucket="%s/%s%s" % (name, s["stream"], "/periodic" if c.get("periodic") and s["frames"][0]["box"] else ""))
+                          bucket="%s/%s%s" % (fname, s.get("stream", "replay"),
+                                              "/periodic" if c.get("periodic") and s["frames"][0]["box"] else ""))
                 if j in bad:
-                    ctx.fail("md.%s: reported bonds are not the triplets meeting the criteria" % name,
-                             case_of(s, k["call"]), observed=r, expected="coq: strict <= result <= lenient (MD.Hbond.Run.%s)" % chk,
-                             tags={"fn": name, "periodic": bool(c.get("periodic")), "stream": s["stream"]})
-        # --- kabsch_sander
-        good = [(k, i, e, r) for k, i, e, r in ks if i is not None]
-        for k, i, e, r in ks:
+                    ctx.fail("md.%s: reported bonds are not the triplets meeting the criteria" % fname,
+                             case_of(s, k["call"]), observed=r,
+                             expected="coq: strict <= result <= lenient (MD.Hbond.Run.check_%s)" % tag.lower(),
+                             tags={"fn": fname, "periodic": bool(c.get("periodic")), "stream": s.get("stream", "replay")})
+        jobs, good = blocks["KS"]
+        for k, i, e, r in jobs:
             if i is None:
                 s = systems[k["sys"]]
                 ctx.fail("md.kabsch_sander raised %s" % r.get("err"), case_of(s, k["call"]), observed=r,
                          expected="one sparse matrix per frame", tags={"fn": "kabsch_sander", "kind": "raises"})
-        if good:
-            bad, errs = ctx.coq_mismatches(req, (KS_TY, "list (list (nat * Z))"), "(fun c e => check_ks c e)", "(fun c => c)",
-                                           [(i, e) for _k, i, e, _r in good], shard=25, prelude=prelude)
-            if errs:
-                ctx.break_("correspondence:coqc-evaluation", "\n".join(errs))
-                return
-            for j, (k, i, e, r) in enumerate(good):
-                k["bad"] = j in bad
-                ks_jobs_meta.append((k, r))
-                if k["shape"] != [k["n"], k["n"]]:
-                    ctx.fail("md.kabsch_sander: matrix shape is not n_residues x n_residues", case_of(systems[k["sys"]], k["call"]),
-                             observed=k["shape"], expected=[k["n"]] * 2, tags={"fn": "kabsch_sander", "kind": "shape"})
+        if good and "KS" not in outs[name]:
+            ctx.break_("correspondence:coqc-evaluation", "no KS result in %s" % name)
+            return
+        bad = outs[name].get("KS", set())
+        for j, (k, i, e, r) in enumerate(good):
+            k["bad"] = j in bad
+            ks_jobs_meta.append((k, r))
+            if k["shape"] != [k["n"], k["n"]]:
+                ctx.fail("md.kabsch_sander: matrix shape is not n_residues x n_residues", case_of(systems[k["sys"]], k["call"]),
+                         observed=k["shape"], expected=[k["n"]] * 2, tags={"fn": "kabsch_sander", "kind": "shape"})
     decide_ks(ctx, systems, ks_jobs_meta)
 
 
@@ -566,7 +680,7 @@ def run_store(ctx):
 def correspond(ctx):
     quick = ctx.tier == "quick"
     run_store(ctx)
-    systems = build_systems(ctx, 60 if quick else 1200)
+    systems = build_systems(ctx, 45 if quick else 1200)
     ctx.log("systems:", len(systems))
     run_systems(ctx, systems)
 
